@@ -52,7 +52,7 @@ def ef1(F, R):
     R.note("summaries: " + "; ".join("%s->%s" % (k.split("::")[-1], sorted(v)) for k, v in sorted(ef.summ.items()) if v))
 
 
-@rule("EF3", ["C11"], floor=8,
+@rule("EF3", ["C11"], floor=4,
       doc="no cache write_back is reachable after a failed cache load: every read_mut failure leaves the function (the `expect(\"write_back with no read\")` in BlockCache is unreachable after a failed load)")
 def ef3(F, R):
     n = 0
@@ -71,6 +71,14 @@ def ef3(F, R):
                     reach = fn.reach([tgt])
                     hit = [w for w in wbs if w in reach]
                     R.require(not hit, fn, "load-failed-no-writeback", "write_back reachable after a failed read_mut (would hit expect(\"write_back with no read\") or write a scribbled buffer)", fn.loc(gb))
+    # every function that loads mutably and writes back tests the load (the count of sites is not fixed: two arms may share one load)
+    for fn in F.fns:
+        if fn.npath.startswith(("fat::volume::", "volume_mgr::")) and "test" not in fn.npath:
+            rms = [b for b, t in fn.calls() if call_matches(t, ("BlockCache::read_mut",))]
+            wbs = [b for b, t in fn.calls() if call_matches(t, ("BlockCache::write_back", "BlockCache::write_back_with_duplicate"))]
+            if rms and wbs:
+                from .ev import failure_edges
+                R.require(all(failure_edges(fn, b) for b in rms), fn, "load-tested:" + fn.npath.split("::")[-1], "%s does not test the result of its read_mut before writing back" % fn.npath.split("::")[-1], fn.loc(rms[0]))
     if n == 0:
         R.bad(None, "anchor", "no read_mut failure edges found", kind="anchor-missing")
 
